@@ -45,3 +45,32 @@ def assigned_from_call(fnode, callee: str, k: int = 0) -> str:
     if k >= len(hits):
         raise Untranslatable(f"role assigned_from_call({callee},{k}) not found")
     return hits[k][1]
+
+
+def _loops(fnode):
+    out = []
+    stack = list(ast.iter_child_nodes(fnode))
+    while stack:
+        n = stack.pop()
+        if isinstance(n, (ast.FunctionDef, ast.AsyncFunctionDef, ast.ClassDef, ast.Lambda)):
+            continue
+        if isinstance(n, (ast.For, ast.AsyncFor, ast.While)):
+            out.append(n)
+        stack.extend(ast.iter_child_nodes(n))
+    out.sort(key=lambda n: (n.lineno, n.col_offset))
+    return out
+
+
+def loop_iter_name(fnode, k: int) -> str:
+    """the local name iterated by the k-th loop (`for x in <name>` / `for x in list(<name>)`)"""
+    n = _loops(fnode)[k]
+    it = n.iter
+    if isinstance(it, ast.Call) and isinstance(it.func, ast.Name) and it.func.id in ("list", "tuple") and it.args:
+        it = it.args[0]
+    if isinstance(it, ast.Name):
+        return it.id
+    raise Untranslatable(f"role loop_iter_name({k}): loop does not iterate a local name")
+
+
+def n_loops(fnode) -> int:
+    return len(_loops(fnode))
